@@ -1,8 +1,148 @@
-(* C05 - preliminary (correspondence first); the property theorems replace this file. *)
-From Coercion.Base Require Import Plan.
-From Coercion.Attempts Require Import ActionRun ActionAuto AttemptsCheck.
+(* C05 - Attempts: at most Retries+1 calls, stop on success/permanent, all recorded.
 
-Theorem c05_placeholder_example :
-  accepted 2 (w_trace (run_action 2 (script_of [OErr; OOverrun; OOk] OErr))) = true.
-Proof. vm_compute. reflexivity. Qed.
-Print Assumptions c05_placeholder_example.
+   "An action's plugin is invoked at most Retries+1 times and never again after an attempt succeeds or returns a
+   permanent error; every invocation is recorded as exactly one attempt, in order, carrying the plugin's response
+   or error and start<=end times. An attempt that overruns the action's timeout is recorded as a (retryable)
+   timeout failure with the plugin's context cancelled, and a response whose type differs from the plugin's
+   declared response type fails the action permanently without storing the response."
+
+   Two layers, both for ONE ACTION RUN (a sequence action, or a check action in one run of its group):
+
+   (1) Coercion.Attempts.ActionRun.run_action retries script: a deterministic transcription of
+       actions.Runner.Start / Execute / exec / run / End and of Backoff.Retry (Azure/retry), with
+       script k = what the plugin's k-th invocation does (OOk | OErr | OPerm | OWrongType | OOverrun).
+       w_calls = plugin invocations, w_ctx = per invocation "the plugin saw its context cancelled",
+       w_attempts = action.Attempts (RGood k / EPlug k p = the response / error invocation k returned;
+       EEngine false = the engine's timeout error, EEngine true = the engine's response-type error),
+       w_status = final status, w_trace = observable events.
+   (2) Coercion.Attempts.ActionAuto.astep: the observable automaton over AWRun | AStart | AEnd o | AWAtt n lastok |
+       AWDone ok n, and the independent monitor mstep of DESIGN Appendix B.
+
+   The theorems quantify over every retries : nat and every script : nat -> outcome / every trace. The tie to
+   /repo is the correspondence check of lib/props/c05.py (AttemptsCheck.v). *)
+From Coq Require Import List Arith Bool.
+From Coercion.Base Require Import Plan.
+From Coercion.Attempts Require Import ActionRun ActionAuto ActionRunProofs ActionAutoProofs ActionTheorems.
+Import ListNotations.
+
+(* the fuel of the retry loop (retries + 2) always suffices: the total run_action is the real result *)
+Theorem c05_fuel_suffices :
+  forall (retries : nat) (script : nat -> outcome),
+    run_action_opt retries script = Some (run_action retries script).
+Proof. exact run_action_opt_some. Qed.
+Print Assumptions c05_fuel_suffices.
+
+(* at most Retries+1 invocations (and at least one) *)
+Theorem c05_calls_bounded :
+  forall (retries : nat) (script : nat -> outcome),
+    1 <= w_calls (run_action retries script) /\ w_calls (run_action retries script) <= retries + 1.
+Proof. exact thm_calls_bounded. Qed.
+Print Assumptions c05_calls_bounded.
+
+(* never again after an attempt succeeded, returned a permanent error, or returned a wrong-typed response:
+   such an invocation is the last one *)
+Theorem c05_stops :
+  forall (retries : nat) (script : nat -> outcome) (i : nat),
+    i < w_calls (run_action retries script) ->
+    (script i = OOk \/ script i = OPerm \/ script i = OWrongType) ->
+    w_calls (run_action retries script) = i + 1.
+Proof. exact thm_stops. Qed.
+Print Assumptions c05_stops.
+
+(* ... and the engine does not give up early: fewer than Retries+1 invocations only after a final outcome *)
+Theorem c05_retries_used :
+  forall (retries : nat) (script : nat -> outcome),
+    w_calls (run_action retries script) < retries + 1 ->
+    let o := script (w_calls (run_action retries script) - 1) in o = OOk \/ o = OPerm \/ o = OWrongType.
+Proof. exact thm_retries_used. Qed.
+Print Assumptions c05_retries_used.
+
+(* every invocation is recorded as exactly one attempt, in order: as many attempts as invocations, and the i-th
+   attempt carries what the i-th invocation returned - the response iff OOk; the plugin's own error for OErr /
+   OPerm; for OOverrun the engine's non-permanent timeout error, no response, and the plugin saw its context
+   cancelled (and only then); for OWrongType the engine's permanent type error and NO response; start <= end *)
+Theorem c05_all_recorded :
+  forall (retries : nat) (script : nat -> outcome),
+    let w := run_action retries script in
+    length (w_attempts w) = w_calls w /\ length (w_ctx w) = w_calls w /\
+    forall i, i < w_calls w ->
+      exists a, nth_error (w_attempts w) i = Some a /\
+        match script i with
+        | OOk => ar_resp a = RGood i /\ ar_err a = ENone
+        | OErr => ar_resp a = RNone /\ ar_err a = EPlug i false
+        | OPerm => ar_resp a = RNone /\ ar_err a = EPlug i true
+        | OWrongType => ar_resp a = RNone /\ ar_err a = EEngine true
+        | OOverrun => ar_resp a = RNone /\ ar_err a = EEngine false
+        end /\
+        1 <= ar_start a /\ ar_start a <= ar_end a /\
+        nth_error (w_ctx w) i = Some (match script i with OOverrun => true | _ => false end).
+Proof. exact thm_all_recorded. Qed.
+Print Assumptions c05_all_recorded.
+
+(* ... in order also by the clock: an earlier attempt ended before a later one started *)
+Theorem c05_attempts_in_time_order :
+  forall (retries : nat) (script : nat -> outcome) (i j : nat) (a b : attempt_rec),
+    i < j ->
+    nth_error (w_attempts (run_action retries script)) i = Some a ->
+    nth_error (w_attempts (run_action retries script)) j = Some b ->
+    ar_end a < ar_start b.
+Proof. exact attempts_in_time_order. Qed.
+Print Assumptions c05_attempts_in_time_order.
+
+(* Completed iff the last attempt has no error, Failed otherwise; retries exhausted (every outcome up to
+   invocation `retries` retryable) => Failed with exactly retries+1 invocations and attempts *)
+Theorem c05_final_status :
+  forall (retries : nat) (script : nat -> outcome),
+    let w := run_action retries script in
+    (w_status w = Completed \/ w_status w = Failed) /\
+    (forall a, nth_error (w_attempts w) (w_calls w - 1) = Some a -> (w_status w = Completed <-> ar_err a = ENone)) /\
+    ((forall i, i <= retries -> script i = OErr \/ script i = OOverrun) ->
+       w_status w = Failed /\ w_calls w = retries + 1 /\ length (w_attempts w) = retries + 1).
+Proof. exact thm_final_status. Qed.
+Print Assumptions c05_final_status.
+
+(* every trace the observable automaton accepts satisfies the monitor of Appendix B (mstep: a Start needs fewer
+   than retries+1 starts so far, no final outcome returned yet, the Running write and the previous attempt
+   durable, nothing in flight; every attempt write is exactly the next one and tells what the invocation
+   returned; the terminal write carries n = starts = durable attempts and the last verdict) *)
+Theorem c05_auto_refines :
+  forall (retries : nat) (tr : list aevent) (s : ast),
+    arun retries tr = Some s ->
+    exists m, mrun retries tr = Some m /\ m_starts m <= retries + 1 /\ m_starts m = count_starts tr.
+Proof. exact thm_auto_refines. Qed.
+Print Assumptions c05_auto_refines.
+
+(* the same, read off the trace itself: at most retries+1 Starts; no Start after an End with a final outcome;
+   each Start is preceded by the Running write and - when k invocations started before it - by the durable write
+   of attempt k, with k <= retries; a terminal write carries n = the number of Starts before it, and no Start
+   follows it *)
+Theorem c05_auto_trace :
+  forall (retries : nat) (tr : list aevent) (s : ast),
+    arun retries tr = Some s ->
+    count_starts tr <= retries + 1 /\
+    (forall tr1 o tr2, tr = tr1 ++ AEnd o :: tr2 -> (o = OOk \/ o = OPerm \/ o = OWrongType) -> count_starts tr2 = 0) /\
+    (forall tr1 tr2, tr = tr1 ++ AStart :: tr2 ->
+       In AWRun tr1 /\ (count_starts tr1 = 0 \/ exists ok, In (AWAtt (count_starts tr1) ok) tr1) /\
+       count_starts tr1 <= retries) /\
+    (forall tr1 v n tr2, tr = tr1 ++ AWDone v n :: tr2 -> n = count_starts tr1 /\ count_starts tr2 = 0).
+Proof. exact thm_auto_trace. Qed.
+Print Assumptions c05_auto_trace.
+
+(* non-vacuity, for every input: the functional model's own trace is accepted by the automaton (complete run, no
+   plugin left in flight), and its Starts are exactly the model's invocations *)
+Theorem c05_model_trace_accepted :
+  forall (retries : nat) (script : nat -> outcome),
+    accepted retries (w_trace (run_action retries script)) = true /\
+    count_starts (w_trace (run_action retries script)) = w_calls (run_action retries script).
+Proof. exact thm_model_trace. Qed.
+Print Assumptions c05_model_trace_accepted.
+
+(* concrete instances (vm_compute): ActionTheorems.ex_run_2 (err, overrun, ok with retries 2: Completed, 3 attempts,
+   context cancelled in the second invocation only), ex_run_1 (same script, retries 1: Failed after retries+1),
+   ex_wrong_type, ex_appendix_b, ex_late_end (accepted traces), ex_rejects (six traces the automaton refuses). *)
+Check ex_run_2.
+Check ex_run_1.
+Check ex_wrong_type.
+Check ex_appendix_b.
+Check ex_late_end.
+Check ex_rejects.
